@@ -1,6 +1,7 @@
 package main
 
 import (
+	"berty.tech/go-ipfs-log/entry"
 	"berty.tech/go-orbit-db/stores/basestore"
 	"context"
 	"fmt"
@@ -286,6 +287,31 @@ done:
 	}
 	r.step = -1
 	r.checkMonotone(store.ReplicationStatus(), "store a")
+	// a head nobody signed: the identity block and key of the remote writer (public: every entry carries them), another
+	// payload, a far greater Lamport time, a signature that is not one, stored under the address of its contents. It is
+	// never merged; the status of the store is that of its log
+	if len(chain) > 0 {
+		if f, ok := copyEntry(chain[len(chain)-1]).(*entry.Entry); ok {
+			f.Payload = []byte(`{"op":"PUT","key":"forged","value":"eA=="}`)
+			f.Clock = entry.NewLamportClock(f.Clock.GetID(), 1000)
+			f.Next, f.Refs = []cid.Cid{}, []cid.Cid{}
+			f.Sig = []byte("3045022100deadbeef")
+			if err := rehash(ctx, c.nodes["b"], f); err == nil {
+				_ = store.Sync(ctx, []ipfslog.Entry{f})
+				if err := sim.Settle(settleTimeout, c.nodes["a"]); err == nil {
+					r.checkMonotone(store.ReplicationStatus(), "store a after a head nobody signed")
+					n, gm, gp := store.OpLog().Len(), store.ReplicationStatus().GetMax(), store.ReplicationStatus().GetProgress()
+					r.res.Comparisons++
+					r.res.Stats["unsigned_heads"]++
+					if _, merged := store.OpLog().Get(f.GetHash()); merged {
+						r.violate("rest", "a head with a signature that is not one was merged", nil, nil)
+					} else if n > 0 && (gp != gm || gm > n) {
+						r.violate("rest", fmt.Sprintf("after a head nobody signed (Lamport time 1000, refused) was announced, at rest with %d entries: progress %d, max %d", n, gp, gm), n, []int{gp, gm})
+					}
+				}
+			}
+		}
+	}
 	// reload from disk: a fresh store object, status must rise monotonically to the entry count
 	if err := c.restart("a", -1); err == nil {
 		if err := c.settle(); err == nil {
